@@ -14,7 +14,8 @@ SPEC = {
                    "heads, record length, next links incl. self-cycle / 2-cycle / into header / past EOF / off a record by 4, by odd amounts, by 8, "
                    "truncation at 32-byte boundaries, prefix, metadata, extension, bit flips; one or two per file) 50%; "
                    "hand-made regression inputs (header length < 32, cycles through compressed stack names, long chains, "
-                   "records ending at EOF, record offsets of every alignment, duplicate raw names) 14%; random bytes 12%. Real Parse under "
+                   "records ending at EOF, record offsets of every alignment, duplicate raw names; a quarter of them: inputs whose "
+                   "length is not a multiple of 32 with a complete linked record in the partial unit after the last full one) 14%; random bytes 12%. Real Parse under "
                    "a watchdog (panic recovered, 3 s limit), run twice with different bytes after the input. "
                    "distinct = distinct case lines; every case compares the answer with the model and evaluates the "
                    "totality / faithfulness / soundness / determinism oracles"),
